@@ -105,14 +105,31 @@ def tree_events(name, trees, rng, evs):
         evs.append({"k": "slice", "name": name, "B": B, "i": B - 1, "tree_view": stv, "result": [leafd(x) for x in flat(r)[0]],
                     "in_dtypes": dts(st), "out_dtypes": dts(r), "in_treedef": flat(st)[1], "out_treedef": flat(r)[1],
                     "expected_input": in_d[B - 1]})
-    # set element i to a fresh element (a perturbed copy of some other input)
-    for i in sorted({0, B - 1, int(rng.integers(0, B))}):
-        src = trees[int(rng.integers(0, B))]
-        elem = jax.tree_util.tree_map(lambda x: (x + 1).astype(x.dtype) if x.dtype != bool else ~x, src)
-        r = tree_utils.tree_add_element(st, i, elem)
-        evs.append({"k": "add_element", "name": name, "B": B, "i": i, "tree_view": stv, "elem": [leafd(x) for x in flat(elem)[0]],
+    # set element i to a fresh element (a perturbed copy of some other input): every index, given as a Python int, as
+    # a traced array index under jit, and the last one also the Python way (-1); plus an element whose leaves arrive in a
+    # wider dtype (exactly representable values): "array_leaf[i] = element" keeps the batched tree's dtypes
+    def add_ev(i, i_given, elem, elem_as_tree_dtype, r, how):
+        evs.append({"k": "add_element", "name": name, "B": B, "i": i, "i_given": i_given, "how": how, "tree_view": stv,
+                    "elem": [leafd(x) for x in flat(elem_as_tree_dtype)[0]],
                     "result_view": view(r), "in_dtypes": dts(st), "out_dtypes": dts(r), "in_treedef": flat(st)[1],
                     "out_treedef": flat(r)[1], "out_shapes_ok": shapes(r) == shapes(st)})
+
+    wider = {"float16": "float32", "int8": "int32", "uint8": "int32", "int16": "int32", "bool": "bool"}
+    for i in range(B):
+        src = trees[int(rng.integers(0, B))]
+        elem = jax.tree_util.tree_map(lambda x: (x + 1).astype(x.dtype) if x.dtype != bool else ~x, src)
+        add_ev(i, i, elem, elem, tree_utils.tree_add_element(st, i, elem), "python_int")
+        if i in (0, B - 1):
+            add_ev(i, i, elem, elem, jax.jit(tree_utils.tree_add_element)(st, jnp.asarray(i), elem), "traced_index")
+            wide = jax.tree_util.tree_map(lambda x: x.astype(wider.get(str(x.dtype), str(x.dtype))), elem)
+            add_ev(i, i, wide, elem, tree_utils.tree_add_element(st, i, wide), "element_in_wider_dtype")
+    src = trees[0]
+    elem = jax.tree_util.tree_map(lambda x: (x + 2).astype(x.dtype) if x.dtype != bool else ~x, src)
+    add_ev(B - 1, -1, elem, elem, tree_utils.tree_add_element(st, -1, elem), "negative_index")
+    r = tree_utils.tree_slice(st, -1)
+    evs.append({"k": "slice", "name": name, "B": B, "i": B - 1, "tree_view": stv, "result": [leafd(x) for x in flat(r)[0]],
+                "in_dtypes": dts(st), "out_dtypes": dts(r), "in_treedef": flat(st)[1], "out_treedef": flat(r)[1],
+                "expected_input": in_d[B - 1]})
 
 
 def leaves_desc(tree):
